@@ -369,7 +369,7 @@ Proof.
       eapply G_trans; [eapply destroy_emitter_G; exact Hc|eapply IHe; exact H].
   - intros d st lg e sg st' lg' H. rewrite loop_S in H.
     destruct (emit_next st e sg) as [[st1 [x|]]|] eqn:Hn; try discriminate.
-    + destruct (exec sc maxd f (S d) st1 (mkInv e sg (s_recv x) (s_slot x) :: lg) (sc (s_recv x) (s_slot x))) as [[st2 lg2]| |] eqn:Hx; try discriminate.
+    + destruct (exec sc maxd f (S d) st1 (mkInv e sg (s_recv x) (s_slot x) :: lg) (sc (mkInv e sg (s_recv x) (s_slot x) :: lg) (s_recv x) (s_slot x))) as [[st2 lg2]| |] eqn:Hx; try discriminate.
       assert (G12 : G st st2) by (eapply G_trans; [eapply emit_next_G; exact Hn|eapply IHe; exact Hx]).
       destruct (invalidated st2 e sg).
       * injection H as <- <-. exact G12.
